@@ -13,6 +13,8 @@ Oracle: own five-entry replacement table, cross-checked per value against
 import html
 import re
 
+from AccessControl.tainted import TaintedString
+
 ID = 'C03'
 LEVEL = 'exploration'
 RULE = ('one case = one value (a code point as the 1-character string and embedded as a?b, a seeded '
@@ -84,7 +86,15 @@ CONTEXTS = {
     'wrapped': ('L[@]R', 'L[', ']R'),
     'if':      ('<dtml-if y>L[@]R</dtml-if>', 'L[', ']R'),
     'in':      ('<dtml-in one>L[@]R</dtml-in>', 'L[', ']R'),
+    # neighbours: other insertions rendered in the same block list before / after the probed one (a marked
+    # value that the engine quotes on its own, a non-string, an entity); their own output is the fixed text
+    # computed here from the statement (tainted values are always escaped: C04), never from the engine
+    'after_tainted': ('<dtml-var tn>L[@]R', 't&lt;n&gt;L[', ']R'),
+    'after_tainted_entity': ('&dtml-tn;<dtml-var n7>L[@]R', 't&lt;n&gt;7L[', ']R'),
+    'after_int': ('<dtml-var n7>L[@]R&dtml-q;', '7L[', ']R&quot;'),
+    'before_tainted': ('L[@]R<dtml-var tn>&dtml-q;', 'L[', ']Rt&lt;n&gt;&quot;'),
 }
+NEIGHBOUR_CTX = ('after_tainted', 'after_tainted_entity', 'after_int', 'before_tainted')
 
 MECH_QUOTE = 'fastpath-skips-single-quote'
 MECH_MOD = 'var-modifier-html_quote-ignores-template-encoding'
@@ -122,7 +132,9 @@ def build_value(recipe):
     if t == 'str':
         return text, text
     if t == 'bytes':
-        raw = text.encode(recipe['enc'])
+        # 'raw_enc': the byte string was produced with another codec (it is still a byte string "in the
+        # template's encoding" whenever that encoding can decode it; the text is what THAT decoding gives)
+        raw = text.encode(recipe.get('raw_enc') or recipe['enc'])
         return raw, raw.decode(recipe['enc'])
     kind = recipe['kind']
     if kind == 'strobj':
@@ -277,7 +289,7 @@ def check_value(ctx, env, recipe, tenc, forms, contexts, plain=()):
     """Render one value through forms x contexts; compare with the oracle. Returns #problems."""
     value, text = build_value(recipe)
     desc = (recipe['t'], recipe.get('kind'), recipe.get('enc'), tuple(recipe.get('cps', ())),
-            recipe.get('i'), tenc)
+            recipe.get('i'), tenc, recipe.get('raw_enc'))
     ctx.case(desc, bool(text))
     expected = model_escape(text)
     # oracle cross-check (table vs html.escape vs unescape round trip vs raw-special scan)
@@ -289,17 +301,18 @@ def check_value(ctx, env, recipe, tenc, forms, contexts, plain=()):
     env.add('value kinds', vkind)
     if recipe['t'] == 'bytes':
         env.add('bytes encodings (value/template)', '%s/%s' % (recipe['enc'], tenc or 'default'))
-    kw = {'x': value, 'y': 1, 'one': [0]}
+    kw = {'x': value, 'y': 1, 'one': [0], 'tn': TaintedString('t<n>'), 'n7': 7, 'q': '"'}
     calls = env.calls
     per_render = env.per_render
     vk0 = vkind.split(':')[0]
     results = []
     problems = 0
     todo = [(f, c, False) for f in forms for c in contexts
-            if not (c in ('if', 'in') and (FORMS[f][0] != 'html' or f not in NESTED_FORMS))]
+            if not (c in ('if', 'in') and (FORMS[f][0] != 'html' or f not in NESTED_FORMS))
+            and not (c in NEIGHBOUR_CTX and FORMS[f][0] != 'html')]
     if recipe['t'] == 'str':
         todo += [(f, c, True) for f in plain for c in contexts
-                 if not (c in ('if', 'in') and PLAIN[f][0] != 'html')]
+                 if not (c in ('if', 'in') + NEIGHBOUR_CTX and PLAIN[f][0] != 'html')]
     for form, context, is_plain in todo:
         if not is_plain and not applicable(form, text, value):
             env.add(None, 'skipped: spacify on a value containing "_"')
@@ -460,7 +473,7 @@ def codepoint_case(ctx, env, cp, full_bytes):
 
 def string_case(ctx, env, rng, cps):
     allforms = CORE + EXTENDED
-    ctxs = ('bare', 'wrapped', 'if', 'in')
+    ctxs = ('bare', 'wrapped', 'if', 'in') + NEIGHBOUR_CTX
     probs = check_value(ctx, env, {'t': 'str', 'cps': cps}, rng.choice([None, None, 'latin-1', 'utf-8']),
                         allforms, ctxs, plain=tuple(PLAIN))
     encs = ['utf-8', 'latin-1']
@@ -477,6 +490,12 @@ def string_case(ctx, env, rng, cps):
         if enc == 'utf-8' and rng.random() < 0.5:
             tenc = None              # the default encoding of a new template is UTF-8
         probs += check_value(ctx, env, {'t': 'bytes', 'cps': cps, 'enc': enc}, tenc, allforms, ctxs)
+        if enc == 'utf-8':
+            # history: the very same byte string right afterwards in a Latin-1 template (every byte string is
+            # valid Latin-1); a result remembered per value, not per (value, encoding), shows here
+            probs += check_value(ctx, env, {'t': 'bytes', 'cps': cps, 'enc': 'latin-1', 'raw_enc': 'utf-8'},
+                                 'latin-1', allforms, ('bare', 'wrapped'))
+            env.add(None, 'bytes: same byte string re-read under a second template encoding')
     env.add(None, 'random strings evaluated')
     return probs
 
@@ -487,7 +506,7 @@ def object_case(ctx, env, rng, j):
     else:
         recipe = {'t': 'obj', 'kind': OBJ_KINDS[j % len(OBJ_KINDS)], 'cps': rand_text(rng)}
     env.add(None, 'non-string values evaluated')
-    return check_value(ctx, env, recipe, None, CORE + EXTENDED, ('bare', 'wrapped', 'if'))
+    return check_value(ctx, env, recipe, None, CORE + EXTENDED, ('bare', 'wrapped', 'if', 'after_tainted'))
 
 
 QUICK_LOW = 0x3000          # every code point below, quick tier
